@@ -433,8 +433,11 @@ impl World {
 			// the harness's own wallets stay in the mempool as they would in reality
 			for tx in removed.iter() {
 				let txid = tx.compute_txid();
+				// (what an earlier incarnation of a node broadcast counts as foreign too: the fault
+				// loses what the running process itself handed over and therefore tracks)
 				let own = self.nodes.iter().any(|x| {
-					x.live.is_some() && !x.gone && x.broadcaster.first_seen.lock().unwrap().contains_key(&txid)
+					x.live.is_some()
+						&& !x.gone && x.broadcaster.first_seen.lock().unwrap().get(&txid).map_or(false, |s| *s >= x.live_since_step)
 				});
 				if !own && !self.chain.setup_txids.contains(&txid) {
 					let _ = self.chain.admit_ext(tx, true, true);
